@@ -268,3 +268,39 @@ def OPT_ALL(opt, pred):
             return OR(_b(opt.is_none), pred(opt.val))
         return pred(opt)
     return opt is None or bool(pred(opt))
+
+
+def FILTER(seq, pred):
+    """[x for x in seq if pred(x)] (order preserving)."""
+    if smt():
+        from . import loops
+
+        if isinstance(seq, V.SymSeq):
+            i0 = z3.FreshConst(z3.IntSort(), "fi0")
+            cond = _b(pred(seq.at(CTX, i0)))
+            return loops.canonical_filter(CTX, seq, cond, i0)
+        items = seq.items if isinstance(seq, V.PyList) else list(seq)
+        out = []
+        for x in items:
+            c = pred(x)
+            if not isinstance(c, bool):
+                raise V.EngineLimit("FILTER over a concrete list with a symbolic predicate")
+            if c:
+                out.append(x)
+        return V.PyList(out)
+    return [x for x in seq if pred(x)]
+
+
+def MAPSEQ(seq, fn):
+    """[fn(x) for x in seq]"""
+    if smt():
+        from . import loops
+
+        if isinstance(seq, V.SymSeq):
+            i0 = z3.FreshConst(z3.IntSort(), "mi0")
+            b = loops.Binding(seq.at(CTX, i0), [i0 >= 0, i0 < seq.length], [i0], [z3.Select(seq.arr, i0)], ordered=True,
+                              source=seq)
+            return loops.seq_from_template(CTX.engine, CTX, seq, b, fn(b.value))
+        items = seq.items if isinstance(seq, V.PyList) else list(seq)
+        return V.PyList([fn(x) for x in items])
+    return [fn(x) for x in seq]
